@@ -21,6 +21,27 @@ CHECKS = {
  "C09": dict(design="4/C09", technique="TLA+ refinement (drop-oldest Lin action) + trace validation of stalled-writer executions with the overflow counter",
    text="The abstract queue's Lin action is the drop-oldest rule; TLC explains every recorded overflow execution (writer stalled inside next at a scripted entry, capacities 1..8, extra appends 0..2*cap, several producers) by a linearization and requires the metrics counter to equal the number of displaced entries; appends that take >5 s or panic are rejected events.",
    note="concurrent overflowing appends are serialized by the harness or kept tiny (search explosion), concurrency x overflow is covered exhaustively in the TLC model with Cap=1"),
+ "C02": dict(design="4.1/C02", technique="TLA+ state machine of the EMF entry writer (EmfFormat.tla) checked by TLC + exhaustive/simulated behaviour replay into the real Emf/SampledEmf judged by a strict JSON parser",
+   text="TLC decides for every enumerated entry x configuration that Accept yields >=1 well-formed record and Reject yields nothing, covering every placement of skippable observations (NaN, zero-occurrence, empty, +-Inf) in 23 observation lists, all names incl. empty/_aws/dimension names, units, flags, per-metric dimensions in split and ignored mode, entry dimensions early/late/twice/empty, 1-3 namespaces, default dimension sets, sampling multiplicity none/1/3/saturating; every such entry is issued call by call to the real formatter with nasty strings and extreme numbers; on success the bytes must be newline-framed strict RFC 8259 with the _aws skeleton, a validation error must have written zero bytes.",
+   note="exhaustive within slices (<=3 calls, 47-entry catalogue x 288 configurations), simulated beyond; number/string rendering checked on concrete representatives only; I/O errors are C16"),
+ "C03": dict(design="4.1/C03", technique="TLA+ reference interpretation of an entry (Accept(records) computed by TLC) compared with the strictly parsed output of the real formatter on every TLC-generated entry",
+   text="TLC computes the expected records for each entry (members with source observation and transformation, counts as saturating occurrences x multiplicity, declarations with unit and resolution per namespace, dimension sets = configured x entry sets extended by per-metric dimensions, timestamp) and checks Faithful on the model; the real output is parsed strictly and compared order-insensitively, floats as parsed f64, integers exactly, timestamp in whole ms, 3 namespaces and two split sets included.",
+   note="a bare number and {Values:[v],Counts:[1]} are treated as equal content (MODEL-DRIFT only); numeric leaves on ~40 representatives"),
+ "C08": dict(design="4.1/C08", technique="TLC equivalence of the validation state machine with a declarative defect predicate + soundness/transparency invariants + decision and byte replay against the real formatter for every way of enabling validations, in debug and release builds",
+   text="TLC proves on all enumerated entries RejectIff (reject exactly when a listed defect is present), Sound (no accepted record has duplicate members) and Transparent (Accept(on) = Accept(off)); the real formatter's decision must equal the model for all_validations, builder and skip_all_validations(false) in dev and release harness builds; rejected => zero bytes, accepted => no duplicate member and output identical to a no-validation formatter.",
+   note="Emf::builder / skip_all_validations(false) are taken at their documentation (validations on iff debug assertions); AllowUnroutableEntries entries compared as drift only; byte equality = equality of the multiset of lines (split records come out in hash-map order)"),
+ "C14": dict(design="4/C14", technique="TLC model checking of the formatter's reused state (EmfHistory.tla: Stateless/NoResidue/PrefixKept over all kind sequences, model-bug sensitivity runs) + TLC-generated kind sequences replayed into one long-lived real formatter and compared per position with a freshly built one",
+   text="TLC proves on the abstract buffer/map/flag/capacity model that output and decision for every entry kind are independent of any preceding sequence and that seeded missing resets break this; every TLC sequence (exhaustive to depth 2-3 over 21 kinds x 11 configurations, 200-long simulate walks) is replayed into the real Emf / SampledEmf / wrapped formatter and each position compared (Result class + records as a multiset of parsed lines) with a fresh formatter, including rejected, split, sampled, multi-megabyte and I/O-failed predecessors.",
+   note="catalogue of 21 kinds x 11 configurations; byte contents only via concrete representatives; error text differences are drift only"),
+ "C15": dict(design="4/C15", technique="TLA+ two-layer model of the value/entry writer pipeline (ValuePipeline.tla, TLC invariant on every wrapper stack) + exhaustive replay of all TLC-printed stacks/compositions into the real wrapper types, recording ValueWriter/EntryWriter as observation",
+   text="TLC checks for every stack of value wrappers (depth <=2 quick / <=3 thorough, 11 base values) and every composition of entry wrappers (BoxEntry, Merged/MergedRef/MergeGlobals, WithGlobalDimensions incl. deny list, WithDimensions/ForceFlag as Entry/InflectableEntry/stream, RootEntry, Option/Box/Arc/Cow/&) that the layer-by-layer result is the plain item sequence plus only the documented additions, sample groups included; every stack is built from the real types and the call sequence seen by a recording format is compared item by item with TLC's expectation.",
+   note="small scope: nesting depth 3, fixed parameter sets; flags observed through a harness MetricOptions; borrowed-vs-owned names not observed"),
+ "C16": dict(design="4/C16", technique="TLC model checking of VectoredWrite.tla (safety + termination against a nondeterministic writer) and SinkErrors.tla; every TLC writer script played against the real write_all_vectored with its call log validated by TLC (VectoredTrace.tla); random writers on real EMF records; TLC result scripts on FlushImmediately/Tee; BackgroundQueue scenarios validated against QueueTrace.tla",
+   text="For <=3 buffers of <=3 bytes every writer behaviour (accept k, Ok(0), Interrupted, hard error) is enumerated and executed on the real loop: offered slices equal the model's at every call and received bytes are the record's prefix; real single/multi-namespace/split/large records under random short writes and faults are byte-compared with an all-accepting writer with errors confined to their entry; every stream of every sink variant receives each entry exactly once under all ok|val|io/flush-error scripts.",
+   note="exhaustive only within small constants; multi-megabyte records byte-checked, not TLC-validated; a skipped flush after a failed append is MODEL-DRIFT (the property does not mention flushing); queue part shares C01's assumptions"),
+ "C19": dict(design="4/C19", technique="TLA+ unit algebra on exponent pairs decided by TLC for all ordered triples of the 26 units + TLC-printed expectation per convertible pair replayed into statically typed WithUnit shapes, #[metrics(unit=..)] structs and dynamic stacks; exact rational oracle, 4 ulp",
+   text="TLC decides inverse, composition, scale preservation, declared unit name, string/mismatch => error for every ordered pair/triple; the real conversion of every one of the 435 pairs (Unsigned, Floating, Repeated; round trips; Duration for all time pairs) and of Option/Distribution/Mean/Box shapes, #[metrics(unit)] fields and unit-carrying wrapper stacks are compared with TLC's exponents in exact arithmetic.",
+   note="numbers on representatives {0,1,3,1e15,2^63,1e-9}, 4 ulp; container shapes on a 55-pair subset; Custom units and Count/Percent as sources not convertible by type, not exercised"),
 }
 NOT_YET = {}
 
